@@ -159,7 +159,7 @@ PROPS = {
         rule="case = one generated network (descriptions + stale addresses + grouping); non-trivial = at least 2 devices, or over capacity, or empty; distinct by hash of the scenario",
         assumptions=["chain topology (trees are C17's subject)", "virtual time"],
         min_distinct=dict(quick=150, thorough=20000),
-        required_counters=["init_ok", "empty_network_ok", "over_capacity_rejected", "devices.at-capacity"],
+        required_counters=["init_ok", "empty_network_ok", "over_capacity_rejected", "devices.at-capacity", "device_name_fills_the_64_byte_capacity"],
         runs=[native("init-release", "c09", "release"), native("init-debug", "c09", "debug", args={"scale-pct": dict(quick=30, thorough=10)})],
     ),
     "C12": dict(
